@@ -47,29 +47,28 @@ theorem rf_incr_eq (s : Cache) (E : Externals) (now : Int) (k : PyVal) (delta : 
     s.incr E now k delta dflt =
       s.transact (rf_incrBody E (keyOf E s.cfg k).1 (keyOf E s.cfg k).2 now delta dflt) := rfl
 
-theorem rf_incrFresh_store {E : Externals} {dbk : SqlVal} {raw : Bool} {now delta d : Int}
+theorem rf_incrFresh_store_gen {E : Externals} {dbk : SqlVal} {raw : Bool} {now delta d : Int}
     {t' t1 : Cache} {c : Cols} {upd : Option Row}
     (hst : t'.store E (.int (d + delta)) false = .ok (t1, c)) (hupd : t1.selKey dbk raw = upd)
-    (hasc : RowidsAsc (setRows dbk raw now c t1)) (hp : t1.cfg.policy = .none) :
+    (hi : TableInv t1) (hnn : dbk ≠ .null) :
     (rf_incrFresh E dbk raw now delta (some d) t' upd).ok = true ∧
     (rf_incrFresh E dbk raw now delta (some d) t' upd).out = .int (d + delta) ∧
-    (∀ r ∈ (rf_incrFresh E dbk raw now delta (some d) t' upd).s.rows, r ∈ setRows dbk raw now c t1) ∧
-    (∀ r ∈ setRows dbk raw now c t1, r ∉ (rf_incrFresh E dbk raw now delta (some d) t' upd).s.rows →
-      expired now r = true) ∧
+    CullFacts t1.cfg t1.env now (setRows dbk raw now c t1)
+      (rf_incrFresh E dbk raw now delta (some d) t' upd).s ∧
     (rf_incrFresh E dbk raw now delta (some d) t' upd).s.files = t1.files := by
   unfold rf_incrFresh
   simp only [hst]
-  unfold setRows at *
-  rw [hupd] at hasc ⊢
+  unfold setRows
+  rw [hupd]
   cases upd with
   | none =>
-    simp only at hasc ⊢
-    obtain ⟨h1, h2, h3, -⟩ := rf_cull_tail (t1.insRow dbk raw now c) now hasc hp
-    exact ⟨trivial, trivial, h1, h2, h3⟩
+    simp only
+    obtain ⟨h1, h3, -⟩ := rf_cull_tail_gen (t1.insRow dbk raw now c) now (insRow_inv dbk raw now c hi hupd hnn)
+    exact ⟨trivial, trivial, h1, h3⟩
   | some r0 =>
-    simp only at hasc ⊢
-    obtain ⟨h1, h2, h3, -⟩ := rf_cull_tail (t1.updRow r0.rowid now c) now hasc hp
-    exact ⟨trivial, trivial, h1, h2, h3⟩
+    simp only
+    obtain ⟨h1, h3, -⟩ := rf_cull_tail_gen (t1.updRow r0.rowid now c) now (updRow_inv r0.rowid now c hi)
+    exact ⟨trivial, trivial, h1, h3⟩
 
 /-- what the (re)creation branch of `incr` does to the view -/
 def rf_IncrFresh (s c' : Cache) (o : Out) (E : Externals) (K : Key) (now delta : Int)
@@ -82,13 +81,36 @@ def rf_IncrFresh (s c' : Cache) (o : Out) (E : Externals) (K : Key) (now delta :
     | .ok p => o = .int (d + delta) ∧
         rf_Culled now (rf_at K (some (entryOf p none .null)) (rf_view s)) (rf_view c')
 
+/-- what the (re)creation branch of `incr` does to the view, under any eviction policy -/
+def rf_IncrFreshG (s c' : Cache) (o : Out) (E : Externals) (K : Key) (now delta : Int)
+    (dflt : Option Int) : Prop :=
+  match dflt with
+  | none => o = .exc "KeyError" ∧ ∀ k', rf_view c' k' = rf_view s k'
+  | some d =>
+    match place E s.cfg.disk s.cfg.minFileSize (.int (d + delta)) false with
+    | .error _ => o = .exc "UnicodeEncodeError" ∧ ∀ k', rf_view c' k' = rf_view s k'
+    | .ok p => o = .int (d + delta) ∧ rf_Wrote s c' K now (entryOf p none .null)
+
+theorem rf_IncrFreshG_none {s c' : Cache} {o : Out} {E : Externals} {K : Key} {now delta : Int}
+    {dflt : Option Int} (h : rf_IncrFreshG s c' o E K now delta dflt) (hp : s.cfg.policy = .none) :
+    rf_IncrFresh s c' o E K now delta dflt := by
+  unfold rf_IncrFreshG at h
+  unfold rf_IncrFresh
+  cases dflt with
+  | none => exact h
+  | some d =>
+    simp only at h ⊢
+    cases hpl : place E s.cfg.disk s.cfg.minFileSize (.int (d + delta)) false with
+    | error e => rw [hpl] at h; exact h
+    | ok p => rw [hpl] at h; exact ⟨h.1, rf_Wrote_none h.2 hp⟩
+
 theorem rf_incr_fresh_view (s : Cache) (E : Externals) (now : Int) (k : PyVal) (delta : Int)
-    (dflt : Option Int) (hg : Good s) (hp : s.cfg.policy = .none) (upd : Option Row)
+    (dflt : Option Int) (hg : Good s) (upd : Option Row)
     (hupd : s.selKey (keyOf E s.cfg k).1 (keyOf E s.cfg k).2 = upd)
     (hB : rf_incrBody E (keyOf E s.cfg k).1 (keyOf E s.cfg k).2 now delta dflt (s.log .begin) =
       rf_incrFresh E (keyOf E s.cfg k).1 (keyOf E s.cfg k).2 now delta dflt
         ((s.log .begin).logSql "selKey") upd) :
-    rf_IncrFresh s (s.incr E now k delta dflt).1 (s.incr E now k delta dflt).2 E (keyOf E s.cfg k)
+    rf_IncrFreshG s (s.incr E now k delta dflt).1 (s.incr E now k delta dflt).2 E (keyOf E s.cfg k)
       now delta dflt := by
   have hg' := incr_good s E now k delta dflt hg
   rw [rf_incr_eq] at hg' ⊢
@@ -96,7 +118,7 @@ theorem rf_incr_fresh_view (s : Cache) (E : Externals) (now : Int) (k : PyVal) (
     (rf_incrBody E (keyOf E s.cfg k).1 (keyOf E s.cfg k).2 now delta dflt) none hg.depth
   rw [hB] at hR hF hO
   have hnn : (keyOf E s.cfg k).1 ≠ .null := put_ne_null_fl E s.cfg.disk k
-  unfold rf_IncrFresh
+  unfold rf_IncrFreshG
   cases dflt with
   | none =>
     have hb : rf_incrFresh E (keyOf E s.cfg k).1 (keyOf E s.cfg k).2 now delta none
@@ -139,34 +161,45 @@ theorem rf_incr_fresh_view (s : Cache) (E : Externals) (now : Int) (k : PyVal) (
       have hi1 : TableInv t1 := (store_inv hst (logSql_inv _ (log_inv _ hg.tinv))).1
       have hsel1 : t1.selKey (keyOf E s.cfg k).1 (keyOf E s.cfg k).2 = upd :=
         (selKey_congr hrows' _ _).trans hupd
-      obtain ⟨hu, hasc⟩ := rf_setRows_unique hi1 (keyOf E s.cfg k).1 (keyOf E s.cfg k).2 now c hnn
-      obtain ⟨hok, hout, hsub, hgone, hfiles⟩ := rf_incrFresh_store (now := now) hst hsel1 hasc
-        (by rw [hcfg]; exact hp)
+      obtain ⟨hu, -⟩ := rf_setRows_unique hi1 (keyOf E s.cfg k).1 (keyOf E s.cfg k).2 now c hnn
+      obtain ⟨hok, hout, hfacts, hfiles⟩ := rf_incrFresh_store_gen (now := now) hst hsel1 hi1 hnn
+      have hsz := rf_transact_size s
+        (rf_incrBody E (keyOf E s.cfg k).1 (keyOf E s.cfg k).2 now delta (some d)) none hg.depth
+        (by rw [hB]; exact hok)
+      rw [hB] at hsz
       rw [hok] at hR
       simp only [if_true] at hR
       refine ⟨hO.trans hout, ?_⟩
       have hentS : ∀ r ∈ s.rows, rf_ent t1 r = rf_ent s r :=
         fun r hr => (rf_ent_mono (a := s) (b := t1) hfsub hP1.nodup (rf_good_ref hg hr)).symm
-      have hcul := rf_culled (b := t1) (now := now) hg' hu (by rw [hR]; exact hsub)
-        (by rw [hR]; exact hgone) (by intro q hq; have := hF q hq; rw [hfiles] at this; exact this)
-        hP1.nodup
-      intro k'
-      have hl := rf_look_setRows (s := s) (s1 := t1) (t := t1) hg.tinv hrows' hentS
-        (keyOf E s.cfg k) now c (entryOf p none .null)
+      have hfacts' := hfacts
+      rw [show t1.cfg = s.cfg from hcfg, show t1.env = s.env from (store_env hst : t1.env = ((s.log .begin).logSql "selKey").env)] at hfacts'
+      exact rf_lossy_finish (b := t1) hg hg' hfacts' hR hsz hu
+        (rf_setRows_nonnull hi1 _ _ _ _ hnn)
+        (by intro q hq; have := hF q hq; rw [hfiles] at this; exact this) hP1.nodup
+        (rf_look_setRows (s := s) (s1 := t1) (t := t1) hg.tinv hrows' hentS
+          (keyOf E s.cfg k) now c (entryOf p none .null)
+          (by
+            intro r h1 h2 h3 h4 h5
+            rw [hent1 r h1 h2 h3, h4, h5, hexp, htag]))
         (by
-          intro r h1 h2 h3 h4 h5
-          rw [hent1 r h1 h2 h3, h4, h5, hexp, htag]) k'
-      rw [← hl]
-      exact hcul k'
+          have := rf_setRows_keep hi1 (keyOf E s.cfg k) now c
+          rw [hrows'] at this
+          exact this)
+        (by
+          have h := rf_setRows_size_le hi1 (keyOf E s.cfg k).1 (keyOf E s.cfg k).2 now c hnn
+          rw [show t1.size = s.size from (store_keep hst).2.2.2.1] at h
+          rw [← rf_store_size hst hpl none .null]
+          exact h)
 
-theorem rf_incr_view (s : Cache) (E : Externals) (now : Int) (k : PyVal) (delta : Int)
-    (dflt : Option Int) (hg : Good s) (hp : s.cfg.policy = .none) :
+theorem rf_incr_view_gen (s : Cache) (E : Externals) (now : Int) (k : PyVal) (delta : Int)
+    (dflt : Option Int) (hg : Good s) :
     match rf_view s (keyOf E s.cfg k) with
-    | none => rf_IncrFresh s (s.incr E now k delta dflt).1 (s.incr E now k delta dflt).2 E
+    | none => rf_IncrFreshG s (s.incr E now k delta dflt).1 (s.incr E now k delta dflt).2 E
         (keyOf E s.cfg k) now delta dflt
     | some e =>
       if e.expired now then
-        rf_IncrFresh s (s.incr E now k delta dflt).1 (s.incr E now k delta dflt).2 E
+        rf_IncrFreshG s (s.incr E now k delta dflt).1 (s.incr E now k delta dflt).2 E
           (keyOf E s.cfg k) now delta dflt
       else
         match e.val with
@@ -188,7 +221,7 @@ theorem rf_incr_view (s : Cache) (E : Externals) (now : Int) (k : PyVal) (delta 
     by_cases hx : (rf_ent s r).expired now = true
     · rw [if_pos hx]
       rw [rf_ent_expired] at hx
-      apply rf_incr_fresh_view s E now k delta dflt hg hp (some r) hsel
+      apply rf_incr_fresh_view s E now k delta dflt hg (some r) hsel
       unfold rf_incrBody
       simp only [hsel', hx, if_true]
     · rw [if_neg hx]
@@ -232,8 +265,7 @@ theorem rf_incr_view (s : Cache) (E : Externals) (now : Int) (k : PyVal) (delta 
           rw [rf_look_upd hg.tinv s hr hk
             (fun x => touchPolicy s.cfg.policy now { x with storeT := now, val := .int (i + delta) })
             (fun x => by simp)]
-          rw [hp]
-          rfl
+          cases s.cfg.policy <;> rfl
         | false =>
           simp only [Bool.false_eq_true, if_false]
           apply hfail _ (((s.log .begin).logSql "selKey").log (.sqlFail "updIncr")) rfl
@@ -262,8 +294,42 @@ theorem rf_incr_view (s : Cache) (E : Externals) (now : Int) (k : PyVal) (delta 
   · have hsel' : (s.log .begin).selKey (keyOf E s.cfg k).1 (keyOf E s.cfg k).2 = none := hsel
     rw [hv]
     simp only
-    apply rf_incr_fresh_view s E now k delta dflt hg hp none hsel
+    apply rf_incr_fresh_view s E now k delta dflt hg none hsel
     unfold rf_incrBody
     simp only [hsel']
+
+theorem rf_incr_view (s : Cache) (E : Externals) (now : Int) (k : PyVal) (delta : Int)
+    (dflt : Option Int) (hg : Good s) (hp : s.cfg.policy = .none) :
+    match rf_view s (keyOf E s.cfg k) with
+    | none => rf_IncrFresh s (s.incr E now k delta dflt).1 (s.incr E now k delta dflt).2 E
+        (keyOf E s.cfg k) now delta dflt
+    | some e =>
+      if e.expired now then
+        rf_IncrFresh s (s.incr E now k delta dflt).1 (s.incr E now k delta dflt).2 E
+          (keyOf E s.cfg k) now delta dflt
+      else
+        match e.val with
+        | .int i =>
+          if inI64 (i + delta) then
+            (s.incr E now k delta dflt).2 = .int (i + delta) ∧
+            ∀ k', rf_view (s.incr E now k delta dflt).1 k' =
+              rf_at (keyOf E s.cfg k) (some { e with val := .int (i + delta) }) (rf_view s) k'
+          else
+            (s.incr E now k delta dflt).2 = .exc "OverflowError" ∧
+            ∀ k', rf_view (s.incr E now k delta dflt).1 k' = rf_view s k'
+        | _ =>
+          (s.incr E now k delta dflt).2 = .exc "TypeError" ∧
+          ∀ k', rf_view (s.incr E now k delta dflt).1 k' = rf_view s k' := by
+  have h := rf_incr_view_gen s E now k delta dflt hg
+  cases hv : rf_view s (keyOf E s.cfg k) with
+  | none => rw [hv] at h; exact rf_IncrFreshG_none h hp
+  | some e =>
+    rw [hv] at h
+    simp only at h ⊢
+    by_cases hx : e.expired now = true
+    · rw [if_pos hx] at h ⊢
+      exact rf_IncrFreshG_none h hp
+    · rw [if_neg hx] at h ⊢
+      exact h
 
 end DC.Cache
